@@ -28,25 +28,26 @@ import (
 )
 
 type fwdCfg struct {
-	Name        string   `json:"name"`
-	BasicAuth   string   `json:"basicAuth"` // user:pass
-	Localhost   string   `json:"localhost"` // deny | allow | direct
-	Deny        []string `json:"deny"`
-	Direct      []string `json:"direct"`
-	MITMDomains []string `json:"mitmDomains"`
-	TimeFrame   string   `json:"timeFrame"` // "" | in | out
-	Upstream    string   `json:"upstream"`  // proxy URL
-	PAC         string   `json:"pac"`       // script
-	Creds       []string `json:"creds"`     // user:pass@host:port
-	ConnectTo   []string `json:"connectTo"` // src_host:src_port:dst_host:dst_port
-	MITM        bool     `json:"mitm"`
-	ReqHeaders  []string `json:"reqHeaders"`
-	ResHeaders  []string `json:"resHeaders"`
-	ConHeaders  []string `json:"conHeaders"`
-	Handler     bool     `json:"handler"` // TestingHTTPHandler variant
-	ProxyProto  bool     `json:"proxyProto"`
-	TLS         bool     `json:"tls"`
-	LogHTTP     string   `json:"loghttp"` // --log-http mode of the proxy ("" = default)
+	Name           string        `json:"name"`
+	BasicAuth      string        `json:"basicAuth"` // user:pass
+	Localhost      string        `json:"localhost"` // deny | allow | direct
+	Deny           []string      `json:"deny"`
+	Direct         []string      `json:"direct"`
+	MITMDomains    []string      `json:"mitmDomains"`
+	TimeFrame      string        `json:"timeFrame"` // "" | in | out
+	Upstream       string        `json:"upstream"`  // proxy URL
+	PAC            string        `json:"pac"`       // script
+	Creds          []string      `json:"creds"`     // user:pass@host:port
+	ConnectTo      []string      `json:"connectTo"` // src_host:src_port:dst_host:dst_port
+	MITM           bool          `json:"mitm"`
+	ReqHeaders     []string      `json:"reqHeaders"`
+	ResHeaders     []string      `json:"resHeaders"`
+	ConHeaders     []string      `json:"conHeaders"`
+	Handler        bool          `json:"handler"` // TestingHTTPHandler variant
+	ProxyProto     bool          `json:"proxyProto"`
+	TLS            bool          `json:"tls"`
+	ConnectTimeout time.Duration `json:"-"`       // --connect-timeout (0 = default)
+	LogHTTP        string        `json:"loghttp"` // --log-http mode of the proxy ("" = default)
 
 	IdleTimeout       time.Duration `json:"-"`
 	ReadHeaderTimeout time.Duration `json:"-"`
@@ -247,6 +248,9 @@ func startFwd(c fwdCfg) (*fwd, error) {
 	cfg.TestingHTTPHandler = c.Handler
 	if c.LogHTTP != "" {
 		cfg.LogHTTPMode = httplog.Mode(c.LogHTTP)
+	}
+	if c.ConnectTimeout > 0 {
+		cfg.ConnectTimeout = c.ConnectTimeout
 	}
 	cfg.ConnectFunc = c.connectFunc
 	if c.ShutdownTimeout > 0 {
